@@ -89,6 +89,15 @@ pub fn lib_source(spec: &Value) -> String {
         exports.push(format!("via-{}-{}", s, j));
         body.push(format!("(define (via-{}-{}) ({}))", s, j, dep_next_name(spec, j)));
     }
+    // `twice` is a private macro in some libraries and a private procedure in the others:
+    // what one library file defines as syntax is nobody else's business
+    if spec["macro"].as_bool().unwrap_or(false) {
+        body.push("(define-syntax twice (syntax-rules () ((twice x) (+ x x))))".to_string());
+    } else {
+        body.push("(define (twice x) (* x 3))".to_string());
+    }
+    body.push(format!("(define (use-twice-{} x) (twice x))", s));
+    exports.push(format!("use-twice-{}", s));
     // export renames whose external name is also bound inside the library, and a swap
     if spec["collide"].as_bool().unwrap_or(false) {
         body.push(format!("(define (aux-{} x) (+ x 5))", s));
@@ -406,6 +415,7 @@ fn gen_lib(rng: &mut Rng, short: &str, imports: Vec<String>, health: &str, allow
         "renames": rng.chance(1, 2),
         "reexport": rng.chance(1, 2),
         "collide": rng.chance(1, 2),
+        "macro": rng.chance(1, 2),
         "dep_style": rng.below(4),
         "fault": fault,
         "fault_kind": fault_kind,
@@ -444,6 +454,7 @@ fn external_names(spec: &Value) -> Vec<(String, String)> {
         }
     }
     v.push((format!("const-{}", s), "const".to_string()));
+    v.push((format!("use-twice-{}", s), "use-helper".to_string()));
     if spec["collide"].as_bool().unwrap_or(false) {
         v.push((format!("use-aux-{}", s), "use-helper".to_string()));
         v.push((format!("aux-{}", s), "look".to_string()));
@@ -569,7 +580,15 @@ pub fn generate_c13(seed: u64, quick: bool) -> Value {
                     ("redefine-helper".into(), "(define helper 5)".to_string())
                 }
             }
-            8 => ("define-secret".into(), format!("(define secret {})", rng.range(40, 49))),
+            8 => {
+                if rng.chance(1, 2) {
+                    ("define-secret".into(), format!("(define secret {})", rng.range(40, 49)))
+                } else if rng.chance(1, 2) {
+                    ("use-private-syntax-name".into(), format!("(twice {})", rng.range(1, 9)))
+                } else {
+                    ("redefine-private-syntax-name".into(), "(define (twice x) (- x 1))".to_string())
+                }
+            }
             9 => {
                 // a builtin the libraries use
                 if rng.chance(1, 2) {
@@ -861,7 +880,7 @@ fn execute_c13(case: Value) -> RunResult {
                 "import"
             } else if kind.contains("peek-secret") {
                 "library-sees-importer"
-            } else if kind == "reference-unexported" {
+            } else if kind == "reference-unexported" || kind.contains("private-syntax") {
                 "importer-sees-unexported"
             } else {
                 "exported-procedure-result"
@@ -1090,6 +1109,7 @@ fn execute_c14(case: Value) -> RunResult {
                     "{:>3} [import] {} => {} | fresh interpreter {} | accepted {:?}",
                     step, lib, observed, fresh, accepted
                 ));
+                res.aux.push(format!("{}{}", if causes.len() >= 2 { "*" } else { "" }, observed));
                 kinds.push_str(&format!("import:{},", if causes.is_empty() { "ok".to_string() } else { causes.iter().map(|c| class_head(c)).collect::<Vec<_>>().join("+") }));
                 for c in &causes {
                     res.count(&format!("fault_reached.{}", class_head(c)));
@@ -1218,7 +1238,24 @@ impl Engine for EngineB {
         let c = case.clone();
         let faults = self.faults;
         match on_fresh_thread(hash_seed, move || if faults { execute_c14(c) } else { execute_c13(c) }) {
-            ThreadOutcome::Done(r) => r,
+            ThreadOutcome::Done(mut r) => {
+                // "depends only on the library graph": where several causes are reachable, which
+                // one is reported is left open, but it must not change from run to run
+                if faults && r.violation.is_none() && r.invalid.is_none() && r.aux.iter().any(|a| a.starts_with('*')) {
+                    let c2 = case.clone();
+                    let seed2 = crate::rng::splitmix64(hash_seed) | 1;
+                    if let ThreadOutcome::Done(r2) = on_fresh_thread(seed2, move || execute_c14(c2)) {
+                        r.count("probe.rerun_under_second_hash_seed");
+                        if r2.aux != r.aux && r2.violation.is_none() {
+                            r.violation = Some(Violation {
+                                signature: "C14/outcome-depends-on-hash-order".into(),
+                                detail: json!({"hash_seed_a": hash_seed, "observed_a": r.aux, "hash_seed_b": seed2, "observed_b": r2.aux}),
+                            });
+                        }
+                    }
+                }
+                r
+            }
             ThreadOutcome::Panicked(p) => {
                 let _ = std::env::set_current_dir("/");
                 let mut r = RunResult::default();
